@@ -20,7 +20,8 @@ RULE = ("a case = capacity 1-6, period (even µs; odd µs only in the model=code
         "container, 1-25 updates placed relative to the current window (in order, inside, skipping, jump >= capacity, "
         "around the reject boundary; on/next to the grid and around the half-way point; value/None/NaN), then after "
         "EVERY update gaps/counts/oldest/newest and at the end 40-324 index windows, 37+ datetime windows (fill_value NaN, "
-        "0, 0.0, negative, fractional, None), at(i) for "
+        "0, 0.0, negative, fractional, None; every explicit fill value through OrderedRingBuffer.window AND "
+        "MovingWindow.window), at(i) for "
         "|i| <= cap+2, at(dt); thorough adds the exhaustive state graph of capacity 3 over 9 slots x {value,None,NaN} "
         "to depth 6; non-trivial = >= 3 accepted updates incl. a missing value, a skipped slot, an out-of-order or an "
         "off-grid timestamp; distinct by canonical JSON hash")
